@@ -8,6 +8,7 @@ import (
 	"os"
 	"runtime"
 	"runtime/debug"
+	"strings"
 	"sync"
 	"sync/atomic"
 
@@ -63,6 +64,7 @@ type combo struct {
 var combos = []combo{
 	{"IPv4 header", false, "ipv4hdr"}, {"IPv4 header with options", false, "ipv4hdr-options"},
 	{"TCP over IPv4", false, "tcp"}, {"TCP with options over IPv4", false, "tcp-options"}, {"UDP over IPv4", false, "udp"}, {"ICMPv4", false, "icmp4"}, {"GRE with checksum over IPv4", false, "gre"},
+	{"TCP over IPv4, 16-byte-form addresses assigned after linking", false, "tcp+addr16"}, {"UDP over IPv4, 16-byte-form addresses assigned after linking", false, "udp+addr16"},
 	{"TCP over IPv6", true, "tcp"}, {"UDP over IPv6", true, "udp"}, {"ICMPv6", true, "icmp6"},
 }
 
@@ -99,6 +101,11 @@ var sopts = gopacket.SerializeOptions{FixLengths: true, ComputeChecksums: true}
 // build serialises one packet; the 16-bit sweep word w goes into the first two payload
 // bytes (payload >= 2) or into a header field that selects no decoder.
 func build(c combo, n int, w uint16) (*built, error) {
+	addr16 := false
+	if strings.HasSuffix(c.proto, "+addr16") {
+		addr16 = true
+		c.proto = strings.TrimSuffix(c.proto, "+addr16")
+	}
 	pl := payloadFor(n, w)
 	var ls []gopacket.SerializableLayer
 	var ipl gopacket.NetworkLayer
@@ -170,6 +177,28 @@ func build(c combo, n int, w uint16) (*built, error) {
 		ls = append(ls, g)
 		hdr = 4
 	}
+	if addr16 {
+		// the caller re-targets the packet after the layers were linked, with addresses in
+		// the 16-byte form that net.ParseIP / net.IPv4 return
+		ip4.SrcIP, ip4.DstIP = net.IPv4(src4[0], src4[1], src4[2], src4[3]), net.IPv4(dst4[0], dst4[1], dst4[2], dst4[3])
+	}
+	// stale checksum values in the structs (a re-used or decoded layer) must not leak into the output
+	for _, l := range ls {
+		switch v := l.(type) {
+		case *layers.IPv4:
+			v.Checksum = 0xbeef
+		case *layers.TCP:
+			v.Checksum = 0xbeef
+		case *layers.UDP:
+			v.Checksum = 0xbeef
+		case *layers.ICMPv4:
+			v.Checksum = 0xbeef
+		case *layers.ICMPv6:
+			v.Checksum = 0xbeef
+		case *layers.GRE:
+			v.Checksum = 0xbeef
+		}
+	}
 	ls = append(ls, gopacket.Payload(pl))
 	buf := gopacket.NewSerializeBuffer()
 	if err := gopacket.SerializeLayers(buf, sopts, ls...); err != nil {
@@ -216,6 +245,7 @@ func ip4p(ip4 *layers.IPv4, ip6 *layers.IPv6, p layers.IPProtocol) {
 
 // reference checksum of the checked region of b.bytes (checksum field taken as zero)
 func reference(c combo, pkt []byte, b *built) uint16 {
+	c.proto = strings.TrimSuffix(c.proto, "+addr16")
 	region := append([]byte(nil), pkt[b.l4off:b.l4off+b.l4len]...)
 	region[b.csumOff-b.l4off], region[b.csumOff-b.l4off+1] = 0, 0
 	var r uint16
@@ -257,6 +287,7 @@ type verdict struct {
 }
 
 func checkedType(c combo) gopacket.LayerType {
+	c.proto = strings.TrimSuffix(c.proto, "+addr16")
 	switch c.proto {
 	case "ipv4hdr", "ipv4hdr-options":
 		return layers.LayerTypeIPv4
@@ -275,6 +306,7 @@ func checkedType(c combo) gopacket.LayerType {
 // verify decodes pkt, attaches the network layer where the API requires it and runs both
 // the layer's VerifyChecksum and Packet.VerifyChecksums.
 func verify(c combo, pkt []byte) (v verdict) {
+	c.proto = strings.TrimSuffix(c.proto, "+addr16")
 	first := layers.LayerTypeIPv4
 	if c.ipv6 {
 		first = layers.LayerTypeIPv6
@@ -444,7 +476,10 @@ func main() {
 	r.Finish()
 }
 
-func sweep(r *report.Run, fail func(string, string, int64, any), c combo, n int, st *stats, smu *sync.Mutex, samples *[]any) {
+func sweep(r *report.Run, fail func(string, string, int64, any), c0 combo, n int, st *stats, smu *sync.Mutex, samples *[]any) {
+	c := c0
+	c.proto = strings.TrimSuffix(c.proto, "+addr16")
+	_ = c0
 	defer func() {
 		if x := recover(); x != nil {
 			k, site := report.PanicKey(x, debug.Stack())
@@ -459,7 +494,7 @@ func sweep(r *report.Run, fail func(string, string, int64, any), c combo, n int,
 	var zeroW, onesW = -1, -1
 	for wi := 0; wi < 65536; wi++ {
 		w := uint16(wi)
-		b, err := build(c, n, w)
+		b, err := build(c0, n, w)
 		if err != nil {
 			fail("emit|serialization failed|"+c.name, err.Error(), int64(wi), desc(w, nil, ""))
 			return
@@ -514,7 +549,7 @@ func sweep(r *report.Run, fail func(string, string, int64, any), c combo, n int,
 	}
 	for _, wi := range words {
 		w := uint16(wi)
-		b, err := build(c, n, w)
+		b, err := build(c0, n, w)
 		if err != nil {
 			continue
 		}
